@@ -29,7 +29,7 @@ RULE = ("plans = selection environment x digest inputs over the padding boundari
         "of a 64-byte block boundary")
 FAULT_KINDS = ["hashlib_probe_raises", "algorithm_unlisted", "env_switch_set", "crypto_absent", "crypto_present"]
 PROBES = ["selected_native", "selected_pure_python", "selected_crypto", "len_55_56", "len_63_64", "len_119_120", "len>=1000",
-          "swap_in_fragment", "murmur_seed>=2^32", "murmur_tail_1", "murmur_tail_2", "murmur_tail_3"]
+          "swap_in_fragment", "murmur_seed>=2^32", "murmur_tail_1", "murmur_tail_2", "murmur_tail_3", "buffer_refilled_before_digest"]
 
 
 def gen_plan(rng, tier, index, config=None):
@@ -45,7 +45,8 @@ def gen_plan(rng, tier, index, config=None):
         elif op == "digest":
             ln = r.weighted([(0, 1), (1, 1), (55, 2), (56, 2), (57, 1), (63, 2), (64, 2), (65, 1), (119, 2), (120, 2), (127, 1),
                              (128, 1), (r.between(0, 300), 6), (r.between(1000, 5000), 1)])
-            steps.append({"op": "digest", "len": ln, "seed": r.bits(32)})
+            steps.append({"op": "digest", "len": ln, "seed": r.bits(32),
+                          "buffer": r.weighted([("bytes", 5), ("bytearray_reused", 2)])})
         elif op == "murmur":
             steps.append({"op": "murmur", "len": r.weighted([(0, 1), (1, 1), (2, 1), (3, 1), (4, 1), (5, 1), (r.between(0, 80), 4)]),
                           "dseed": r.bits(32), "seed": r.weighted([(0, 2), (1, 1), (0xFFFFFFFF, 1), (0xFBA4C795, 1), (r.bits(32), 4),
@@ -218,7 +219,18 @@ def _digest(ctx, H, st, selected):
     exp = model_ripemd(data)
     got = {}
     try:
-        got["selected"] = bytes(selected["f"](data).digest())
+        buf = st.get("buffer", "bytes")
+        if buf == "bytearray_reused" and ln:
+            # the caller hashes out of a reusable read buffer and refills it before asking for the digest (as it may with a
+            # hashlib object, which has consumed its input by then)
+            ba = bytearray(data)
+            hobj = selected["f"](ba)
+            for i_ in range(len(ba)):
+                ba[i_] ^= 0x5A
+            got["selected"] = bytes(hobj.digest())
+            ctx.probe("buffer_refilled_before_digest")
+        else:
+            got["selected"] = bytes(selected["f"](data).digest())
         got["bundled"] = bytes(pure.ripemd160(data))
         try:
             got["hashlib"] = hashlib.new("ripemd160", data).digest()
